@@ -5,6 +5,9 @@ E: TLC checks Schema.tla: mandatory keys are members of their key set, fixed key
 G: TLC enumerates DocMutation (Props = {"C13"}): every mapping node of every base x
      InsertKey (foreign key - an ordinary word or the unquoted YAML merge key `<<` - first / middle / last; closed
                 key sets only),
+     InsertKey/casevariant (every known but absent key of a case-sensitive closed mapping in another letter case),
+     RenameKey (the key of every entry in another letter case: a foreign key where keys are case-sensitive; the same
+                key - drift-only - where they are case-insensitive),
      DupKey (every entry, key in the same / UPPER / Mixed case, value copied, directly behind the entry or last),
      DropKey (every key whose removal leaves no mandatory alternative satisfied; also combined with a foreign key,
               and every pair of mandatory keys dropped at once - each of the two must be reported),
@@ -37,6 +40,8 @@ MISSING_CLASSES = ('missing-key', 'schedule-item')
 def target(v):
     at = v['exp']['at']
     p = doclib.pid(v['h']['path'])
+    if at == 'entrykey':
+        return (doclib.pid(v['entry']), 'key')
     return {'key': ('new', 'key'), 'item': (p, 'node'), 'doc': ('doc', 'node'), 'parentkey': (p, 'key'), 'node': (p, 'node')}[at]
 
 
@@ -60,10 +65,17 @@ def judge(v, mo, ro):
         elif not any(doclib.at_node(d, ident, role) for d in miss):
             drift.append('missing key %r of %s reported, but not at the %s' % (v['key'], doclib.site_str(v['h']['site']), v['exp']['at']))
         return problems, drift
+    gone = doclib.pid(v['entry']) if mut == 'RenameKey' else None      # the renamed entry is no longer what it was
+    if mut == 'RenameKey' and v['exp']['same']:
+        # case-insensitive mapping: the same key in another letter case - nothing should change (drift only)
+        if Counter(doclib.dkey(d) for d in mo['diags']) != Counter(doclib.dkey(d) for d in ro['diags']):
+            drift.append('key %r of the case-insensitive mapping %s spelled %s changes the diagnostics'
+                         % (v['key'], doclib.site_str(v['h']['site']), v['case']))
+        return problems, drift
     at = [d for d in syn if doclib.at_node(d, ident, role)]
     if not at:
         problems.append(('report', 'no syntax-check diagnostic at the %s key %r (%s)'
-                         % ('duplicated' if mut == 'DupKey' else 'foreign', v['key'] if v['case'] == 'same' else v['key'] + '/' + v['case'],
+                         % ('duplicated' if mut == 'DupKey' else 'foreign', v['key'] if v['case'] in ('same', '') else v['key'] + '/' + v['case'],
                             'expected at the schedule item' if v['exp']['at'] == 'item' else 'expected at the key')))
     elif not any(d['cls'] == v['exp']['cls'] for d in at):
         drift.append('%s in %s reported as %s, model says %s' % (mut, doclib.site_str(v['h']['site']),
@@ -71,14 +83,14 @@ def judge(v, mo, ro):
     if v['exp']['siblings']:
         # everything located inside the inserted entry, and the predicted diagnostic itself, is not a sibling diagnostic
         others = [d for d in mo['diags'] if not doclib.inside(d, 'new') and not (d['kind'] == 'syntax-check' and doclib.at_node(d, ident, role))]
-        have = Counter(doclib.dkey(d) for d in others)
-        want = Counter(doclib.dkey(d) for d in ro['diags'])
+        have = Counter(doclib.dkey(d) for d in others if not (gone and doclib.inside(d, gone)))
+        want = Counter(doclib.dkey(d) for d in ro['diags'] if not (gone and doclib.inside(d, gone)))
         lost = want - have
         extra = have - want
         if lost:
             problems.append(('siblings', 'diagnostics of sibling keys are suppressed: %s'
                              % '; '.join('[%s] %s' % (k[0], k[1][:120]) for k in list(lost)[:3])))
-        if extra:
+        if extra and mut != 'RenameKey':
             drift.append('%s in %s adds diagnostics elsewhere: %s' % (mut, doclib.site_str(v['h']['site']),
                                                                       '; '.join('[%s] %s' % (k[0], k[1][:100]) for k in list(extra)[:2])))
     return problems, drift
@@ -189,7 +201,9 @@ def run(ck, tier):
     for p in plan[:1]:
         ck.sample({'site': doclib.site_str(p[0]['h']['site']), 'mutation': p[0]['h']['mut'], 'key': p[0]['key'],
                    'observed': [doclib.show(d) for d in runs[p[2]]['diags'][:3]]})
-    ck.assumptions += ['the fixed key sets, case rules and mandatory keys are those written down in spec/Schema.tla (A.1 of DESIGN.md, '
+    ck.assumptions += ['which mappings compare keys case-sensitively is taken from the schema table of DESIGN.md A.1 (Schema.tla), not '
+                       'from the code: in a case-sensitive closed mapping a known key in another letter case is a foreign key and '
+                       'must be reported; that a case-insensitive mapping accepts it unchanged is drift-only','the fixed key sets, case rules and mandatory keys are those written down in spec/Schema.tla (A.1 of DESIGN.md, '
                        'cross-checked against parse.go and by the bases linting clean)',
                        'the `on` mapping and the open mappings (env, with, inputs, matrix rows, ...) have no foreign key; a key of '
                        '`on` in another letter case is another event name, not a key error',
